@@ -94,16 +94,16 @@ theorem feed_never_stalls (bs : Bytes) (tbl : Tbl) (buf chunk : Bytes) :
 
 /-! ## 4. a returned message has a CheckSum field that matches its bytes -/
 
-/-- Every returned frame `enc` is `pre ++ SOH "10=" v` optionally followed by one SOH, where `v` is
-EXACTLY three ASCII digits (`ckParse`) denoting the byte sum of `pre ++ SOH` (everything in front of
-`10=`) modulo 256.  `pre` is exactly the model's `SOH.join(msg[:-1])`. -/
+/-- Every returned frame `enc` is `pre ++ SOH "10=" v SOH`, where `v` is EXACTLY three ASCII digits
+(`ckParse`) denoting the byte sum of `pre ++ SOH` (everything in front of `10=`) modulo 256.
+`pre` is exactly the model's `SOH.join(msg[:-1])`. -/
 theorem checksum_sound (bs : Bytes) (tbl : Tbl) (raw : Bytes) (m : Msg) (n : Nat) (enc : Bytes)
     (h : decode bs tbl raw = .msg m n enc) :
-    ∃ pre v tail, enc = pre ++ SOH :: (tag10 ++ EQS :: v) ++ tail ∧ (tail = [] ∨ tail = [SOH]) ∧
+    ∃ pre v, enc = pre ++ SOH :: (tag10 ++ EQS :: v) ++ [SOH] ∧
       ckParse v = some (sum (pre ++ [SOH]) % 256) ∧
       pre = join SOH (fieldsOf enc).dropLast := by
-  obtain ⟨pre, v, tail, h1, h2, _, h4, h5⟩ := decode_checksum' h
-  refine ⟨pre, v, tail, h1, h2, ?_, h5⟩
+  obtain ⟨pre, v, h1, h4, h5⟩ := decode_checksum_soh h
+  refine ⟨pre, v, h1, ?_, h5⟩
   rw [h4, sum_append, sum_cons, sum_nil]; rfl
 
 /-- what `ckParse v = some n` means -/
@@ -120,6 +120,9 @@ theorem decode_raw_infix (bs : Bytes) (tbl : Tbl) (raw : Bytes) (m : Msg) (n : N
   | none => rw [hvi] at h; cases h
   | some vi =>
     rw [hvi] at h
+    dsimp only at h
+    split at h
+    · cases h
     obtain ⟨_, _, _, _, _, _, _, _, _, _, _, _, _, _, _, _, _, _, he⟩ := decodeFields_msg h
     rw [he]
     exact List.IsInfix.trans (List.take_prefix _ _).isInfix (List.drop_suffix _ _).isInfix
@@ -237,13 +240,16 @@ theorem same_shape_corruption_not_decoded (bs : Bytes) (tbl : Tbl) (raw : Bytes)
 
 /-- **Characterisation of "consume nothing".**  `decode` returns `(None, 0, None)` only if
  (a) the buffer is a proper prefix of the marker `8=FIX.` (possibly empty), or
- (b) it starts with the marker, no complete CheckSum field has arrived yet and the piece has
-     fewer than three fields, or
- (c) it starts with the marker, has at least three fields and declares (BodyLength) more bytes
-     than are buffered. -/
+ (b) it starts with the marker and a CheckSum field `SOH 10=…` has begun whose terminating SOH has
+     not arrived, or
+ (c) it starts with the marker, contains no `SOH 10=` yet and has fewer than three fields, or
+ (d) it starts with the marker, has at least three fields and declares (BodyLength) more bytes
+     than are buffered.
+In every case the decoder is waiting for bytes that have not arrived. -/
 theorem no_permanent_stall (bs : Bytes) (tbl : Tbl) (raw : Bytes) (h : decode bs tbl raw = .none 0) :
     (findSub marker raw = none ∧ raw.length ≤ 5 ∧ raw = marker.take raw.length) ∨
-    (isPrefix marker raw = true ∧ closedAtOf raw = none ∧
+    (isPrefix marker raw = true ∧ ckOpen raw = true) ∨
+    (isPrefix marker raw = true ∧ findSub cksumPat raw = none ∧
       (fieldsOf (raw.take (cutOf raw))).length < 3) ∨
     (isPrefix marker raw = true ∧ 3 ≤ (fieldsOf (raw.take (cutOf raw))).length ∧
       raw.length < declaredOf (fieldsOf (raw.take (cutOf raw)))) :=
@@ -315,12 +321,14 @@ example : sampleFrame =
     findSub cksumPat (([56, 61, 70, 73, 88, 46, 52, 46, 52, 1, 57, 61, 49, 48, 1, 51, 53, 61] ++ 49 :: [1, 52, 57, 61, 83]) ++ cksumPat)
       = some 24 := by decide +kernel
 
-/-- the three kinds of wait of `no_permanent_stall` all occur:
-`8=FI`, `8=FIX.4.4|9=`, `8=FIX.4.4|9=100|35=0|` -/
+/-- the four kinds of wait of `no_permanent_stall` all occur:
+`8=FI`, `8=FIX.4.4|9=5|10=0`, `8=FIX.4.4|9=`, `8=FIX.4.4|9=100|35=0|` -/
 example : decode bs44 [] [56, 61, 70, 73] = .none 0 ∧
+    decode bs44 [] [56, 61, 70, 73, 88, 46, 52, 46, 52, 1, 57, 61, 53, 1, 49, 48, 61, 48] = .none 0 ∧
     decode bs44 [] [56, 61, 70, 73, 88, 46, 52, 46, 52, 1, 57, 61] = .none 0 ∧
     decode bs44 [] [56, 61, 70, 73, 88, 46, 52, 46, 52, 1, 57, 61, 49, 48, 48, 1, 51, 53, 61, 48, 1] = .none 0 :=
-  ⟨DecRes.of_noneOf (by decide +kernel), DecRes.of_noneOf (by decide +kernel), DecRes.of_noneOf (by decide +kernel)⟩
+  ⟨DecRes.of_noneOf (by decide +kernel), DecRes.of_noneOf (by decide +kernel),
+   DecRes.of_noneOf (by decide +kernel), DecRes.of_noneOf (by decide +kernel)⟩
 
 /-- hypotheses of `closed_frame_wait_bounded`: head declaring 100 bytes, closed by a CheckSum field -/
 example : findSub marker ([0, 0] ++ [56, 61, 70, 73, 88, 46, 52, 46, 52, 1, 57, 61, 49, 48, 48, 1, 51, 53, 61, 48, 1, 49, 48, 61, 48, 1]) = some 2 ∧
